@@ -79,6 +79,9 @@ MUTS = {
  "F4_deref_keeps_ref_name": ("_attributes.py", "            return type(self)(self.value, self._name)", "            return type(self)(self.value, self._value._name)"),
  "T1_type_attr_drops_shape": ("_attributes.py", "                dtype_to_tensor_type(value.dtype),\n                value.shape,", "                dtype_to_tensor_type(value.dtype),\n                value.shape if value.shape else None,"),
  "T2_type_attr_seq_of_seq": ("_attributes.py", "            type_proto = make_sequence_type_proto(value.elem_type._to_onnx())", "            type_proto = make_optional_type_proto(value.elem_type._to_onnx())"),
+ # round 8: the caller's list kept by reference for variadic inputs (the class C01 closed; C10's last clause owns it)
+ "V1_variadic_list_by_reference": ("_fields.py", "                value = tuple(value)\n                setattr(self, field.name, value)", "                value = value if isinstance(value, list) else tuple(value)\n                setattr(self, field.name, value)"),
+ "V2_variadic_no_tuple_at_all": ("_fields.py", "                value = tuple(value)\n                setattr(self, field.name, value)", "                value = value if hasattr(value, '__len__') else tuple(value)"),
  # new capture sites without a row: generated_capture_complete / generated_classes_complete must break
  "S1_new_attr_class": ("APPEND", "_attributes.py", "\n\nclass AttrInt64Matrix(Attr[list]):\n    _attribute_proto_type = AttributeProto.INTS\n\n    def _to_onnx_deref(self) -> AttributeProto:\n        return make_attribute(self._name, [x for r in self.value for x in r], attr_type=AttributeProto.INTS)\n"),
  "S2_new_array_function": ("APPEND", "_graph.py", "\n\ndef initializers(arrs: List[np.ndarray]) -> Tuple[Var, ...]:\n    return tuple(initializer(a) for a in arrs)\n"),
@@ -144,7 +147,7 @@ def run(name):
         rep_clean.append(rr.returncode)
     print(f"   replay on mutant: {rep_mut}  on clean: {rep_clean}")
     # does the repo's own suite notice?
-    if os.environ.get("SUITE"):
+    if os.environ.get("SUITE", "0") not in ("", "0"):
         apply(name)
         try:
             t = sh(f"cd {REPO} && PYTHONPATH={REPO}/src /venv/bin/python -m pytest -q -p no:cacheprovider -x tests >/dev/null 2>&1")
@@ -154,3 +157,7 @@ def run(name):
 if __name__ == "__main__":
     names = sys.argv[1:] or list(MUTS)
     for n in names: run(n)
+    # the last ./check ran on a mutant: Generated/*.lean and evidence/C10.json are the mutant's. Restore them from the
+    # clean tree so that nothing mutated can be committed by accident.
+    r = sh(f"cd {VERIF} && ./check C10 quick", env=dict(os.environ, SPOX_REPO=REPO, VERIF_SEED="0"))
+    print(f"== clean tree after the table: exit {r.returncode} (Generated and evidence restored)")
